@@ -32,6 +32,8 @@ type mockCase struct {
 	// Seq, when set, replaces the 50 identical valid requests: these bodies are sent in order to ONE mock
 	// server over HTTP and to ONE mock object directly (only the answers to valid ones are judged)
 	Seq []mockReq
+	// Deps: further files of the request (other proto and Go packages) that Build's file imports
+	Deps func(pkg string) []*spec.File
 }
 
 type mockReq struct {
@@ -227,6 +229,21 @@ func mockCatalogue() []mockCase {
 				&spec.Message{Name: "Wrapper", Fields: []*spec.Field{spec.FM("item", 1, item)}})
 			return f
 		}})
+	// message types of ANOTHER Go package in the response: singular, as a map value, as list elements
+	out = append(out, mockCase{ID: "mock/imported-message-types/other-go-package",
+		Examples: map[string][]string{"grandTotal.currency": {"EUR", "USD"}, "totals.*.currency": {"EUR", "USD"}, "lines.*.sku": {"sku-1"}},
+		ExKind:   map[string]string{"grandTotal.currency": "string", "totals.*.currency": "string", "lines.*.sku": "string"},
+		Deps: func(pkg string) []*spec.File {
+			return []*spec.File{{Path: "c20/common/" + strings.ReplaceAll(pkg, ".", "_") + ".proto", Package: pkg + ".common", GoImport: "lab/gen/" + strings.ReplaceAll(pkg, ".", "") + "common", GoName: strings.ReplaceAll(pkg, ".", "") + "common",
+				Messages: []*spec.Message{{Name: "Money", Fields: []*spec.Field{spec.F("currency", 1, spec.String).With(exs("EUR", "USD")), spec.F("units", 2, spec.Int64)}}}}}
+		},
+		Build: func(pkg string) *spec.File {
+			money := "." + pkg + ".common.Money"
+			f := mockFile(pkg, []*spec.Field{spec.FM("grand_total", 1, money), spec.FM("totals", 2, money).MapOf(spec.String), spec.FM("lines", 3, "."+pkg+".Line").MapOf(spec.String), spec.F("name", 4, spec.String)},
+				&spec.Message{Name: "Line", Fields: []*spec.Field{spec.F("sku", 1, spec.String).With(exs("sku-1")), spec.FM("price", 2, money)}})
+			f.Imports = []string{"c20/common/" + strings.ReplaceAll(pkg, ".", "_") + ".proto"}
+			return f
+		}})
 	// examples on fields that also carry validation rules which every example satisfies (lengths count characters)
 	strRules := func(r *validate.StringRules) *validate.FieldRules {
 		return &validate.FieldRules{Type: &validate.FieldRules_String_{String_: r}}
@@ -336,7 +353,11 @@ func c20(c *Ctx) {
 		f.Path, f.Package, f.GoImport, f.GoName = fmt.Sprintf("c20/m%03d.proto", i), pkg, "lab/gen/"+goName, goName
 		u := &unit{mc: mc, f: f, dir: "gen/" + goName, doc: map[string]*oas.Doc{}}
 		units[i] = u
-		req, err := spec.Request([]*spec.File{f}, nil, "")
+		files := []*spec.File{f}
+		if mc.Deps != nil {
+			files = append(mc.Deps(pkg), f)
+		}
+		req, err := spec.Request(files, nil, "")
 		if err != nil {
 			c.R.Harness(mc.ID + ": " + err.Error())
 			return
@@ -358,7 +379,7 @@ func c20(c *Ctx) {
 			return
 		}
 		u.refused = ad.Refused
-		rj, _ := spec.Request([]*spec.File{f}, nil, "format=json")
+		rj, _ := spec.Request(files, []string{f.Path}, "format=json")
 		res := lab.RunDecoy(c.TB, "openapiv3", rj, plugin.RunOpt{})
 		c.R.Eval(1)
 		if res.OK() {
